@@ -33,8 +33,8 @@ ARG_TARGETS = {"\\%arg0": 0, "\\%arg1": 1, "\\%arg2": 2, "\\%arg3": 3, "\\%arg4"
 T_TARGET, T_RECEIVER = "\\%target", "\\%receiver"
 ANY_LANG = "%"
 
-SOURCE_OPS = ("call_stmt", "object_call", "parameter_decl", "field_read")
-SINK_OPS = ("call_stmt", "object_call", "field_write", "record_write")
+SOURCE_OPS = ("call_stmt", "object_call", "object_call_stmt", "parameter_decl", "field_read")
+SINK_OPS = ("call_stmt", "object_call", "object_call_stmt", "field_write", "record_write")
 
 
 # ---------------------------------------------------------------------------------------------------
@@ -72,7 +72,7 @@ class Rule:
             out.append(f"      name: \"{self.name}\"")
         if self.key is not None:
             out.append("      key: '" + self.key + "'")
-        if self.side == "source" and self.operation in ("call_stmt", "object_call"):
+        if self.side == "source" and self.operation in ("call_stmt", "object_call", "object_call_stmt"):
             out.append("      tag: [\"%target\"]")
         if self.side == "sink":
             out.append("      target: [" + ", ".join(self.target or []) + "]")
@@ -230,10 +230,10 @@ class _Scanner(ast.NodeVisitor):
             recv = _recv_name(f.value, self.self_stack[-1])
             if recv is not None:
                 nm = recv + "." + f.attr
-                rs = self._rules("source", ("object_call",), lambda r: r.name == nm, line)
+                rs = self._rules("source", ("object_call", "object_call_stmt"), lambda r: r.name == nm, line)
                 if rs:
                     self.sites.append(Site("source", "mcall", self.file, line, nm, rs, node=node))
-                rs = self._rules("sink", ("object_call",), lambda r: r.name == nm, line)
+                rs = self._rules("sink", ("object_call", "object_call_stmt"), lambda r: r.name == nm, line)
                 if rs:
                     self.sites.append(Site("sink", "mcall", self.file, line, nm, rs, node=node, exprs=self._call_exprs(node, rs, f.value)))
         self.generic_visit(node)
